@@ -96,3 +96,11 @@ chk("C15", "exploration",
     "sized around multiples of the 256 KiB wrapper buffer with incompressible content.",
     "Reference decoders are trusted; a stream whose only damage is undetectable by the reference decoder is not judged.",
     "differential against reference codecs, framing/chunking/negative sweeps", "3/C15")
+chk("C05", "exploration",
+    "Valid images are built by an independent writer with uncompressed metadata and a map of every on-disk field; each field (superblock, inode fields, directory headers/entries, table entries and locations, "
+    "block size words, xattr fields, metadata block headers) is overwritten with 0, 1, max, +-1, sign bit, doubled and random values. Every mutant is walked in a forked child of an ASan+UBSan harness that drives "
+    "libsquashfs the way the tools do (full hierarchy, stat, xattrs, stream / positional / per-block / fragment data access, recursive iterator with hard-link filter); a sample plus byte-mutated tool-written "
+    "compressed images plus special images (directory loops, nested shared directory inodes up to depth 40, truncations) go through rdsquashfs -d/-l/-s/-c/-x/-u, sqfs2tar (plain, gzip, --subdir) and sqfsdiff. "
+    "Oracle: no sanitizer report, signal, hang (no exit within 5x the watchdog on a solitary re-run) or resource blow-up; exit status is free.",
+    "Quick samples one instance per field kind; thorough mutates every field. Compressed metadata is reached only by byte mutation. ASan red zones miss far out-of-bounds accesses.",
+    "structure-aware field mutation + ASan/UBSan walk harness and CLI replay", "3/C05")
